@@ -200,7 +200,7 @@ macro_rules! runner {
                 o.live_after_drop = m.live.iter().map(|(a, l)| (*a, *l)).collect();
                 o.log = m.log.clone();
                 o.double_unmaps = m.double_unmaps;
-                o.foreign_unmaps = m.foreign_unmaps;
+                o.foreign_unmaps = m.foreign_unmaps + m.clobbered;
             });
             o
         }
@@ -392,6 +392,22 @@ pub fn check(rec: &mut Recorder, c: &S2Case) -> Result<(), String> {
             Variant::Arm => Ok(()), // no trampoline on 32-bit ARM (C16 judges the bytes)
         };
         unsafe { std::ptr::copy_nonoverlapping(now.as_ptr(), entry as *mut u8, 32) };
+        // an installation that keeps no mapping of its own may hold the whole replacement at the
+        // entry: followed to its end (right after the install) it reached the fake / returned
+        // the forced value
+        let kept_before = if k == 0 { 0 } else { o.live_after_install[k - 1].len() };
+        let verdict = match (&verdict, o.dest.get(k).and_then(|d| d.as_ref())) {
+            (Err(_), Some(d)) if live.len() == kept_before => {
+                let want_fake = c.fake.wrapping_add(16 * k as u64) | (c.fake & 1);
+                let forced = if k == 0 { c.boolean } else { None };
+                match forced {
+                    Some(v) if d.kind == "ret" && d.value.map(|x| x & 0xFF) == Some(v as u64) => Ok(()),
+                    None if d.kind == "branch" && d.value == Some(want_fake) => Ok(()),
+                    _ => verdict,
+                }
+            }
+            _ => verdict,
+        };
         if let Err(e) = verdict {
             return rec.fail(&sig("branch-misses-trampoline"), format!("{e}; case {c:?}"));
         }
